@@ -106,6 +106,54 @@ R["C07"] = {"harnesses": [H("H_MergeMerge", MM_Q, None, ["mm/end", "mm/non-objec
 R["C16"] = {"harnesses": [H("H_C16_Valid", ns(0, 5), ns(0, 7), ["C16/valid/accept", "C16/valid/reject"], "every byte string of exactly n bytes, all n bytes unconstrained")],
             "anchors": ["internal/json.Valid", "internal/json.checkValid"], "assumptions": [], "outside_bound": ["byte strings longer than the listed n"]}
 
+# ---- options families (H_Apply with optmask: 1 AllowMissingPathOnRemove, 2 EnsurePathExistsOnAdd, 4 EscapeHTML, 8 copy-size limit)
+HTML_SHAPES = 57344  # shapes 13,14,15: strings over printable ASCII incl. < > &
+C12_K1 = {"k": 1, "kmask0": 16, "maxtok": 2, "tokmask": 1, "shapemask": HTML_SHAPES, "nvals": 2, "optmask": 12}
+C12_K2 = {"k": 2, "kmask0": 16, "kmask1": 16, "maxtok": 1, "tokmask": 1, "shapemask": 40960, "nvals": 2, "optmask": 12}
+C12_K2_MIX = {"k": 2, "kmask0": 63, "kmask1": 16, "maxtok": 1, "tokmask": 1, "shapemask": 8192, "nvals": 2, "optmask": 12}
+C12_K3 = {"k": 3, "kmask0": 16, "kmask1": 16, "kmask2": 16, "maxtok": 1, "tokmask": 32, "shapemask": HTML_SHAPES, "nvals": 2, "optmask": 12}
+C12_K2_ALL = {"k": 2, "kmask0": 16, "kmask1": 16, "maxtok": 2, "tokmask": 1, "shapemask": HTML_SHAPES, "nvals": 2, "optmask": 12}
+R["C12"] = {"harnesses": [H("H_Apply", [C12_K1, C12_K2], [C12_K1, C12_K2_ALL, C12_K2_MIX, C12_K3], ["apply/copy-limit-hit", "apply/end"],
+    "documents with strings of 1-2 symbolic bytes over printable ASCII (so <, >, & make the escaped length vary per path); K copy operations (optionally one other operation first) with pointers of <= maxtok one-byte symbolic tokens; "
+    "AccumulatedCopySizeLimit = any int64 (one symbolic variable: 0, negative, total-1, total, total+1, MaxInt64 all decided in the same query); EscapeHTML on/off; SupportNegativeIndices symbolic")],
+    "anchors": ["(github.com/evanphx/json-patch/v5.Patch).copy", "v5.deepCopy", "v5.NewApplyOptions"],
+    "assumptions": ["a copied null may count 0 or 4 bytes: limits between the two totals are not compared", "member names and strings are ASCII"],
+    "outside_bound": ["more than 3 copies", "the legacy package's package-level limit (see C18 for the legacy Apply)"]}
+C13_K1 = {"k": 1, "kmask0": 2, "maxtok": 2, "tokmask": 15, "shapemask": ALLSHAPES, "nvals": 2, "optmask": 1}
+C13_K2 = {"k": 2, "kmask0": 2, "kmask1": 63, "maxtok": 1, "tokmask": 1, "shapemask": 166, "nvals": 2, "optmask": 1}
+C13_K2B = {"k": 2, "kmask0": 61, "kmask1": 2, "maxtok": 1, "tokmask": 1, "shapemask": 166, "nvals": 2, "optmask": 1}
+C13_K1_T3 = {"k": 1, "kmask0": 2, "maxtok": 3, "tokmask": 15, "shapemask": ALLSHAPES, "nvals": 2, "optmask": 1}
+C13_K2_DEEP = {"k": 2, "kmask0": 63, "kmask1": 63, "maxtok": 2, "tokmask": 1, "shapemask": 24, "nvals": 2, "optmask": 1}
+R["C13"] = {"harnesses": [H("H_Apply", [C13_K1, C13_K2, C13_K2B], [C13_K1_T3, C13_K2, C13_K2B, C13_K2_DEEP], ["apply/end", "apply/ref-fails"],
+    AP_BOUND + "; AllowMissingPathOnRemove on/off; the reference skips exactly the removes whose target or ancestor is absent"),
+    H("H_AllowMissing_Meta", [{"k": 2, "maxtok": 1, "tokmask": 1, "shapemask": 166, "nvals": 2}], [{"k": 2, "maxtok": 2, "tokmask": 1, "shapemask": 190, "nvals": 2}, {"k": 3, "maxtok": 1, "tokmask": 1, "shapemask": 34, "nvals": 2}], ["meta/end", "meta/skipped-some"],
+      "metamorphic, both sides real code: patch P with the option on vs P minus the removes the reference classifies as skipped with the option off")],
+    "anchors": ["(github.com/evanphx/json-patch/v5.Patch).remove", "(*github.com/evanphx/json-patch/v5.partialDoc).remove", "(*github.com/evanphx/json-patch/v5.partialArray).remove"],
+    "assumptions": ["outside (property): remove of \"\", non-numeric last token on an array; and, by deliberate narrowing, a negative index while SupportNegativeIndices is off"],
+    "outside_bound": AP_OUTSIDE}
+C14_K1 = {"k": 1, "kmask0": 1, "maxtok": 3, "tokmask": 13, "shapemask": 1561, "nvals": 2, "optmask": 2}
+C14_K1_ALL = {"k": 1, "kmask0": 1, "maxtok": 3, "tokmask": 13, "shapemask": ALLSHAPES, "nvals": 3, "optmask": 2}
+C14_K2 = {"k": 2, "kmask0": 1, "kmask1": 63, "maxtok": 2, "maxtok1": 1, "tokmask": 1, "shapemask": 521, "nvals": 2, "optmask": 2}
+R["C14"] = {"harnesses": [H("H_Apply", [C14_K1], [C14_K1_ALL, C14_K2], ["apply/end", "apply/ref-succeeds"],
+    "add with EnsurePathExistsOnAdd on/off, paths of <= 3 tokens (one symbolic byte: names, indices 0-9, '-'; or the spellings a~0b / c~1d), over documents in which any prefix of the path may exist; optionally followed by one arbitrary operation; compared ordered with the reference ensure-then-add (created containers hold only the path and null padding; everything else unchanged)"),
+    H("H_Ensure_Same", [{"maxtok": 2, "tokmask": 13, "shapemask": 1561, "nvals": 2}], [{"maxtok": 3, "tokmask": 13, "shapemask": ALLSHAPES, "nvals": 2}], ["ensure/plain-add-succeeds"],
+      "an add that succeeds without the option gives byte-identical output with it")],
+    "anchors": ["v5.ensurePathExists", "(github.com/evanphx/json-patch/v5.Patch).add"],
+    "assumptions": ["outside (property): null or scalar on the path, negative indices, '-' other than last; don't-care (DESIGN appendix A): existing array shorter than the LAST token's index"],
+    "outside_bound": ["paths longer than 3 tokens, indices above 9"]}
+R["C05"] = {"harnesses": apply_harnesses() + [H("H_Merge", MERGE_Q, None, ["merge/object-patch"], MERGE_BOUND),
+    H("H_Apply", [{"k": 0, "maxtok": 1, "tokmask": 1, "shapemask": 262143, "nvals": 2}, {"k": 1, "maxtok": 2, "tokmask": 1, "shapemask": 196608, "nvals": 2, "kmask0": 63}],
+      [{"k": 0, "maxtok": 1, "tokmask": 1, "shapemask": 262143, "nvals": 2}, {"k": 2, "maxtok": 1, "tokmask": 1, "shapemask": 196608, "nvals": 2, "kmask0": 63, "kmask1": 63}], ["apply/end"],
+      "literal family: the empty patch on all 18 document shapes, and K operations on two documents whose numbers are the templates d.d, -0, a 23-digit integer with three symbolic digits, 1e400, -d, dEdd with members in non-sorted order: output compared ordered and literal-exact with the reference")],
+    "anchors": AP_ANCHORS + ["(*github.com/evanphx/json-patch/v5.partialDoc).TrustMarshalJSON", "v5.mergeDocs"],
+    "assumptions": ["order among members that MergePatch adds is unspecified (Go map iteration) and not asserted"],
+    "outside_bound": AP_OUTSIDE}
+C08_OPTS = {"k": 2, "kmask0": 63, "kmask1": 63, "maxtok": 1, "tokmask": 1, "shapemask": 8194, "nvals": 2, "optmask": 15}
+R["C08"] = {"harnesses": apply_harnesses(extra_quick=[C12_K1, C13_K1], extra_thorough=[C08_OPTS, C12_K2, C13_K2]) ,
+    "anchors": AP_ANCHORS + ["(github.com/evanphx/json-patch/v5.Patch).ApplyIndentWithOptions"],
+    "assumptions": ["error classes come from the reference evaluator: testFailed only when a comparison was made and came out unequal; missing for absent members and unreachable parents; copyLimit from the running escaped total"],
+    "outside_bound": AP_OUTSIDE}
+
 if __name__ == "__main__":
     json.dump(R, open(os.path.join(V, "harness", "registry.json"), "w"), indent=1)
     print("registry:", sorted(R))
